@@ -179,7 +179,7 @@ func c08PreRun(c c08PreCase, ns string, begin func(oi int), judge func(oi, pass 
 			if err := seed.CheckConsistency(); err != nil {
 				panic("harness: inconsistent tree: " + err.Error())
 			}
-			preprocess("0", seed)
+			verifPreprocess("0", seed)
 			judge(oi, pi, op, seed, nodes)
 			fetched := func(n verifseen.Node) bool {
 				return n.Item.GetStatus() == models.ItemPreProcessed && n.Item.GetURL().GetRequest() != nil
